@@ -29,6 +29,10 @@ class PF(TraitType):
             raise HookFault("post_setattr hook fails once")
 
 
+class ListSub(list):
+    """a list subclass (as collections.UserList-like containers, numpy-free records, ...)"""
+
+
 class Base(HasTraits):
     mp = Map({"a": 1, "b": 2}, default_value="a")
     arr = Array()
@@ -41,6 +45,7 @@ class Base(HasTraits):
     d_plain = Dict(Int, Int)
     s_plain = Set(Int)
     a_list = Any([1, 2])
+    a_lsub = Any(ListSub([1, 2]))
     a_dict = Any({1: 1})
     f_call = Instance(Box, ())
     m_dyn = Int
